@@ -1,1 +1,83 @@
-//! Harness contracts for C13.
+//! Harness contracts for C13 (votes).
+//!
+//! * `NftVotes` — non-fungible votes token wired exactly as the library prescribes:
+//!   `NonFungibleToken<ContractType = NonFungibleVotes>`, `NonFungibleBurnable` (default
+//!   methods forward to `ContractType::burn/burn_from`), `Votes` (default methods), and an
+//!   admin-gated `mint` / `mint_id` forwarding to `NonFungibleVotes::{sequential_mint, mint}`.
+//! * `VotesLib` — the bare `stellar_governance::votes` library exposed 1:1 (no token):
+//!   `transfer_voting_units`, the `Votes` trait defaults (`delegate` + getters) and the two
+//!   getters that are not part of the trait (`num_checkpoints`, `get_voting_units`).
+//!
+//! Neither contract has logic of its own beyond forwarding.
+
+pub mod nft_votes {
+    use soroban_sdk::{contract, contractimpl, symbol_short, Address, Env, String, Symbol};
+    use stellar_governance::votes::{self, Votes};
+    use stellar_tokens::non_fungible::{burnable::NonFungibleBurnable, votes::NonFungibleVotes, Base, NonFungibleToken};
+    const ADMIN: Symbol = symbol_short!("ADMIN");
+
+    #[contract]
+    pub struct NftVotes;
+
+    #[contractimpl]
+    impl NftVotes {
+        pub fn __constructor(e: &Env, admin: Address) {
+            Base::set_metadata(
+                e,
+                String::from_str(e, "https://example.org/nft/"),
+                String::from_str(e, "VoteNft"),
+                String::from_str(e, "VNFT"),
+            );
+            e.storage().instance().set(&ADMIN, &admin);
+        }
+        /// sequential mint (ids 0,1,2,…)
+        pub fn mint(e: &Env, to: Address) -> u32 {
+            let admin: Address = e.storage().instance().get(&ADMIN).unwrap();
+            admin.require_auth();
+            NonFungibleVotes::sequential_mint(e, &to)
+        }
+        /// explicit-id mint (the harness only passes fresh ids outside the sequential range)
+        pub fn mint_id(e: &Env, to: Address, token_id: u32) {
+            let admin: Address = e.storage().instance().get(&ADMIN).unwrap();
+            admin.require_auth();
+            NonFungibleVotes::mint(e, &to, token_id);
+        }
+        pub fn num_checkpoints(e: &Env, account: Address) -> u32 {
+            votes::num_checkpoints(e, &account)
+        }
+        pub fn get_voting_units(e: &Env, account: Address) -> u128 {
+            votes::get_voting_units(e, &account)
+        }
+    }
+    #[contractimpl(contracttrait)]
+    impl NonFungibleToken for NftVotes {
+        type ContractType = NonFungibleVotes;
+    }
+    #[contractimpl(contracttrait)]
+    impl NonFungibleBurnable for NftVotes {}
+    #[contractimpl(contracttrait)]
+    impl Votes for NftVotes {}
+}
+
+pub mod votes_lib {
+    use soroban_sdk::{contract, contractimpl, Address, Env};
+    use stellar_governance::votes::{self, Votes};
+
+    #[contract]
+    pub struct VotesLib;
+
+    #[contractimpl]
+    impl VotesLib {
+        pub fn transfer_voting_units(e: &Env, from: Option<Address>, to: Option<Address>, amount: u128) {
+            votes::transfer_voting_units(e, from.as_ref(), to.as_ref(), amount);
+        }
+        pub fn num_checkpoints(e: &Env, account: Address) -> u32 {
+            votes::num_checkpoints(e, &account)
+        }
+        pub fn get_voting_units(e: &Env, account: Address) -> u128 {
+            votes::get_voting_units(e, &account)
+        }
+    }
+    #[contractimpl(contracttrait)]
+    impl Votes for VotesLib {}
+}
